@@ -225,9 +225,20 @@ ZImg ==
 Stable(o) == \A a, b \in 1..Len(zimgs) : zimgs[a].ki = zimgs[b].ki => zimgs[a].before[o] = zimgs[b].before[o]
 KeyDep(o) == Stable(o) /\ \E a, b \in 1..Len(zimgs) : zimgs[a].before[o] # zimgs[b].before[o]
 KeyDepSet == IF zimgs = <<>> THEN {} ELSE {o \in 1..Len(zimgs[1].before) : KeyDep(o)}
+\* The autodetecting AES types are a union of a large software arm and a small intrinsics arm.  While the intrinsics arm
+\* is live, the rest of the union is storage the type never initialises: what it holds is whatever the compiler left there
+\* (return-slot scratch, spills), not data of the instance.  Offsets beyond every arm that ever lived in the storage are
+\* therefore not the instance's; when a software-arm value lived there at some point (mixed clone_from) all of it is.
+AesHwArmBytes(t) == (IF t \in Aes128T THEN 176 ELSE IF t \in Aes192T THEN 208 ELSE 240) *
+                    (IF t \in {"Aes128", "Aes192", "Aes256"} THEN 2 ELSE 1)
+OwnedBytes(e) ==
+    IF "arm" \in DOMAIN e /\ e.arm = "hw" /\ e.type \in AesT
+       /\ e.route \notin {"clone_from_onto_soft", "clone_from_onto_hw"}
+    THEN AesHwArmBytes(e.type)
+    ELSE IF zimgs = <<>> THEN 0 ELSE Len(zimgs[1].before)
 ZEnd ==
     /\ IsEvent("zend")
-    /\ LET K == KeyDepSet IN
+    /\ LET K == {o \in KeyDepSet : o <= OwnedBytes(Rec[tpos])} IN
        IF Rec[tpos].zeroize
        THEN \* every key-dependent offset reads zero after the drop.  (K may legitimately be empty: e.g. RC2 with a
             \* 1-byte key and 8 effective bits expands to the same table for almost every key.)
